@@ -95,7 +95,7 @@ ADD_TEXT = {
  'C01': 'runThisAfterLoop: the eventfd is closed once and no wake-up flag is left raised for the next run of the same loop.',
  'C02': 'TimerEventImpl enable / disable / initialize / onEvent (one registration per enabled event, one-shot disabled before its callback).',
  'C03': 'SelectLoop::fillFdSets: a descriptor is in the read/write/except set handed to select() iff the loop holds enabled events of that kind for it (descriptor 0 included), nfds covers it.',
- 'C04': 'CommonLoop::onSignal: the pipe is read in whole signal numbers and every subscriber of every number read is called exactly once.',
+ 'C04': 'CommonLoop::onSignal: the pipe is read in whole signal numbers and every subscriber of every number read is called exactly once. SignalHandlerFunc: the previously installed handler is chained exactly once (never for default/ignore dispositions), every listening loop gets one write of the signal number.',
  'C05': 'ThreadPool::execute and the whole of WorkThread (execute, popOneTask, cancel with the order of the remaining tasks, worker loop, cleanup, guarded-by stop flag) are under contract as well.',
  'C06': 'TcpConnection and TcpServer: the buffered descriptor / the connection object is disabled, detached and destroyed only by a posted task, exactly once; a peer close is reported exactly once; sends after the close are refused.',
  'C07': 'hasRead / hasWritten are proved for ANY size (no wrap of index + size).',
@@ -110,6 +110,7 @@ FIX_NOTE = {
  'C01': ('Interleavings, thread identity and shutdown draining are not decided.', 'Interleavings, thread identity, shutdown draining (cleanupDeferredTasks) and runThisBeforeLoop are not decided.'),
  'C02': ('TimerEventImpl and sleep time are not covered.', 'The sleep-time computation (getWaitTime) is not covered.'),
  'C03': ('The select event class, fillFdSets and shared-record reference counting are not under contract.', 'The select event class, removeInvalidFds and shared-record reference counting are not under contract; select(2) descriptors are assumed < FD_SETSIZE.'),
+ 'C04': ('Asynchronous delivery to every subscriber in every loop, the handler chain and subscribeSignal are not decided (not expressible as per-call contracts).', 'Kernel delivery of the signal, the thread each loop runs on and subscribeSignal are not decided; the fan-out (handler -> pipe of every loop -> every subscriber) is decided per call, not end to end.'),
  'C05': ('Interleavings, liveness and WorkThread are not decided', 'Interleavings and liveness are not decided'),
  'C06': ('Read path and the TCP classes are not covered', 'The read path (attempted; the harness is beyond the installed solvers, DESIGN I.8) and acceptor/connector/client are not covered'),
  'C09': ('Sink level filter, back-end re-framing, file roll-over and interleavings are not decided.', 'The produced text, file roll-over and interleavings are not decided.'),
